@@ -32,7 +32,7 @@ def check_against_ref(ctx, label, candles, ref):
 def run(ctx, P):
     tf, n = P["tf"], P["n"]
     tfs = tf_secs(tf)
-    cs, ts = mk_candles_symtime(ctx, n)
+    cs, ts = mk_candles_symtime(ctx, n, lo=-2 * 10 ** 9)      # from 1906: the bucket grid also extends below the epoch
     ref = ref_resample(ctx, cs, ts, tfs)
     if P["via"] == "manager":
         m = drive_manager(cs, tf, False, n, [])
@@ -69,7 +69,7 @@ def run(ctx, P):
 
 
 META = dict(
-    bounds=dict(quick="N=4 candles (3 through Indicator/Hexital), timeframes S10/T5/H1/H5/D1, timestamps any integers in [0,4e9] s non-decreasing; schedules: construction, one-by-one, every two-chunk split, 1 preloaded + singles, 0 or 2 extra collapse passes",
+    bounds=dict(quick="N=4 candles (3 through Indicator/Hexital), timeframes S10/T5/H1/H5/D1, timestamps any integers in [-2e9,4e9] s (1906..2096, i.e. also before the epoch) non-decreasing; schedules: construction, one-by-one, every two-chunk split, 1 preloaded + singles, 0 or 2 extra collapse passes",
                 thorough="N=5 (4 through the API), timeframes S5,T1,T5,T7,T45,H1,H4,H5,D1,D2,D7"),
     stubs=["datetime -> integer seconds (sub-second part outside the claim)", "process time zone fixed to UTC (C18 makes it symbolic)", "max/min -> If-terms"],
     assumptions=["timestamps are whole seconds", "well-formed OHLCV"],
